@@ -47,6 +47,23 @@ def main():
             scratch = os.path.join(tmp, "repo")
             shutil.copytree(REPO, scratch, ignore=shutil.ignore_patterns(".git"))
             sh("git init -q && git add -A && git -c user.name=x -c user.email=x@x commit -qm base", scratch)
+            def run_demo():
+                demo_go = os.path.join(d, "demo_test.go")
+                demo_sh = os.path.join(d, "demo.sh")
+                if os.path.exists(demo_go):
+                    pkg = meta.get("demo_pkg_dir") or "."
+                    shutil.copy(demo_go, os.path.join(scratch, pkg, "zz_seed_demo_test.go"))
+                    m = re.findall(r"func (Test\w+)", open(demo_go).read())
+                    rc, out = sh("go test -vet=off -count=1 -timeout 600s -run '^(%s)$' ./%s" % ("|".join(m), pkg), scratch)
+                    os.remove(os.path.join(scratch, pkg, "zz_seed_demo_test.go"))
+                elif os.path.exists(demo_sh):
+                    rc, out = sh("sh " + demo_sh, scratch)
+                else:
+                    rc, out = 0, "no demonstration"
+                return rc, out
+            if "--base-demo" in args:
+                rc, out = run_demo()
+                res["demo_passes_on_base"] = rc == 0
             rc, out = sh("git apply " + os.path.join(d, "patch.diff"), scratch)
             if rc != 0:
                 res["status"] = "patch-does-not-apply"; res["detail"] = out[-400:]
